@@ -374,23 +374,43 @@ Definition advance (n : nfa) (lim : limits) (r : run) (e : event) : adv :=
     end
   end.
 
-Fixpoint start_go (n : nfa) (e : event) (started : nat) (ts : list nat) : option run :=
+(* capture_first_kleene_event: a run that starts in a Kleene state (pattern beginning with
+   `all`) puts its first event into the Kleene capture, as enter_trans does for a Kleene state
+   entered from a previous step.  (kc_extend on the fresh capture cannot fail; None stands for
+   the unreachable panic.) *)
+Definition start_capture (lim : limits) (ns : state) (r : run) (e : event) : option run :=
+  match s_type ns with
+  | TKleene =>
+    if s_self ns then
+      if s_eps_acc ns then Some (set_kc r (Some (kc_count (r_kc r) e (s_alias ns))))
+      else
+        let k := kc_new (s_post ns) in
+        if N.leb (max_events lim) (k_next k) then Some (set_kc r (Some k))
+        else match kc_extend k e (s_alias ns) with
+             | Some k' => Some (set_kc r (Some k'))
+             | None => None
+             end
+    else Some r
+  | _ => Some r
+  end.
+
+Fixpoint start_go (n : nfa) (lim : limits) (e : event) (started : nat) (ts : list nat) : option run :=
   match ts with
   | [] => None
   | nx :: rest =>
     match nth_error n nx with
     | None => None
     | Some ns =>
-      if matches_state ns e [] then Some (push (mkRun nx [] [] false None started) e (s_alias ns))
-      else start_go n e started rest
+      if matches_state ns e [] then start_capture lim ns (push (mkRun nx [] [] false None started) e (s_alias ns)) e
+      else start_go n lim e started rest
     end
   end.
 
 (* try_start_run_shared: first transition of the start state whose target matches *)
-Definition try_start (n : nfa) (e : event) (started : nat) : option run :=
+Definition try_start (n : nfa) (lim : limits) (e : event) (started : nat) : option run :=
   match nth_error n 0 with
   | None => None
-  | Some st => start_go n e started (s_trans st)
+  | Some st => start_go n lim e started (s_trans st)
   end.
 
 (* Vec::swap_remove *)
@@ -521,7 +541,7 @@ Definition process (g : config) (en : engine) (e : event) : option (engine * lis
     | None => None
     | Some (rs1, ms) =>
       let parts1 := match part_get key parts0 with Some _ => part_set key rs1 parts0 | None => parts0 end in
-      match try_start (g_nfa g) e (e_clock en) with
+      match try_start (g_nfa g) (g_lim g) e (e_clock en) with
       | Some r =>
         let cur1 := match part_get key parts1 with Some rs => rs | None => [] end in
         let '(rs2, added, c1) := backpressure (g_strategy g) (g_max_runs g) cur1 r (e_cnt en) in
@@ -534,7 +554,7 @@ Definition process (g : config) (en : engine) (e : event) : option (engine * lis
     match proc_runs (S (length runs0 + length runs0)) (g_nfa g) (g_lim g) e runs0 0 [] with
     | None => None
     | Some (rs1, ms) =>
-      match try_start (g_nfa g) e (e_clock en) with
+      match try_start (g_nfa g) (g_lim g) e (e_clock en) with
       | Some r =>
         let '(rs2, added, c1) := backpressure (g_strategy g) (g_max_runs g) rs1 r (e_cnt en) in
         let c2 := if added then add_created c1 else c1 in
